@@ -1235,7 +1235,12 @@ pub(crate) fn eval_query(ctx: &Context, expr: &Query) -> Result<QueryReply, Quer
                 .iter()
                 .map(|(a, b)| (a.clone(), Rc::new(b.clone())))
                 .collect::<BTreeMap<_, _>>();
-            let results = commands::factorize(&val, &quantities);
+            let results = commands::try_factorize(&val, &quantities).ok_or_else(|| {
+                QueryError::generic(format!(
+                    "Too complex to factorize: {} base units and powers",
+                    val.complexity_score()
+                ))
+            })?;
             let mut results = results.into_sorted_vec();
             // The heap orders by score only, so equal factorizations
             // aren't necessarily adjacent and dedup() would miss them.
